@@ -93,6 +93,13 @@ fn run_suite<S: ShortGroupSignatureScheme>(em: &mut Emitter, base: &mut Rng, sui
         if blindable.is_empty() {
             blindable.push(labels[1]);
         }
+        // the schema author may declare the blindable labels in any order (two scenarios out of three: not index order)
+        if k % 3 != 0 {
+            rng.shuffle(&mut blindable);
+            if blindable.len() >= 2 && k % 3 == 1 {
+                blindable.sort_by_key(|l| std::cmp::Reverse(labels.iter().position(|x| x == l).unwrap()));
+            }
+        }
         let schema = cred_schema(n_claims, &blindable);
         let (public, mut issuer): (IssuerPublic<S>, Issuer<S>) = Issuer::<S>::new(&schema);
         let all = claim_vector(rng, n_claims, &format!("blind-{}", k), "Blind Holder", 44);
